@@ -74,13 +74,13 @@ func drawCellCase(w *simrt.Tape, maxCells, maxT int) *cellCase {
 	c := &cellCase{}
 	c.Model = names[w.Choose(len(names))]
 	c.desc = sim.Catalog[c.Model]().Description()
-	c.N = 1 + w.Choose(maxCells)
+	c.N = sizeDraw(w, maxCells, 3*maxCells+1)
 	c.P = setCount(w.Choose(4), c.N)
 	c.I = setCount(w.Choose(4), c.N)
 	if inputsDependOnParams[c.Model] && c.P != 1 {
 		c.I = c.P
 	}
-	c.T = 1 + w.Choose(maxT)
+	c.T = sizeDraw(w, maxT, 4*maxT+3)
 	c.CIn, c.CSt, c.COut, c.CPar = w.Bool(25), w.Bool(25), w.Bool(25), w.Bool(25)
 	over := []int{0, 0, 0, 1, 2}
 	c.DN, c.DO, c.DT = over[w.Choose(5)], over[w.Choose(5)], over[w.Choose(5)]
